@@ -94,9 +94,9 @@ m = {
     "hooks": {"guard": "verif", "enable": "none needed: the analysis reads /repo's source; no build tag is used", "baseline_off_cmd":
               "cd /repo && GOWORK=off GOFLAGS=-mod=mod GOPROXY=off GOSUMDB=off go test -vet=off -count=1 ./...", "source_commits": [], "add_only": True},
     "engines": [{"name": "cctpcheck", "path": "/verif/checker", "serves_properties": sorted(IMPLEMENTED),
-                 "kind_free_text": "repository-specific static analyser on go/packages + go/types + go/ssa (x/tools v0.29.0): effect summaries, CFG cut-set guards, SSA provenance terms, call-graph rules"}],
+                 "kind_free_text": "repository-specific static analyser on go/packages + go/types + go/ssa (x/tools v0.29.0): effect summaries, CFG cut-set guards walked through new helper functions (detours), SSA provenance terms with normal forms, call-graph rules"}],
     "checks": checks,
-    "notes": "All checks are static analyses of /repo's current source (nothing in /repo is executed). Genuine defects found are fixed in /repo by 'fix:' commits or listed in /verif/known_findings.json; see DESIGN.md §5.",
+    "notes": "All checks are static analyses of /repo's current source (nothing in /repo is executed). Genuine defects found are fixed in /repo by 'fix:' commits or listed in /verif/known_findings.json; see DESIGN.md §5. The thorough tier additionally replays the committed corpora against scratch copies of the tree (mutants/*.json: every entry must be reported by its property; benign/*.json: must stay silent, eight documented false alarms are shown as known-false-alarm; seeded/*: agent-written breaking changes with demonstrations) — DESIGN.md §11/§12. New (non-reference) helper functions are analysed through: see DESIGN.md §11.",
     "not_applicable": na,
 }
 json.dump(m, open(os.path.join(HERE, "MANIFEST.json"), "w"), indent=1)
